@@ -78,6 +78,18 @@ DIRECTED = [
     ([("from shapes import Circle as C", "c")], ["area_of"], 0),
     ([("from geo.pts import Point as P", "c"), ("from shapes import Circle", "c")], ["area_of", "origin"], 0),
     ([("from typing_helpers import Helper as H", "c"), ("from other import Thing as Circle", "c")], ["helper", "area_of"], 0),
+    # the target is a module of package c16app.sub and imports relatively from modules whose tails are the stub's absolute ones
+    ([("from .shapes import Circle", "t")], ["area_of"], 0, {"pkg": True}),
+    ([("from ..shapes import Square, Circle", "t"), ("from .geo.pts import Point", "m")], ["area_of", "origin"], 0, {"pkg": True}),
+    ([("from . import shapes", "t"), ("from .shapes import Circle as C", "m")], ["area_of"], 0, {"pkg": True}),
+    # the TYPE_CHECKING statement has else / elif branches holding run-time imports
+    ([("from shapes import Circle", "E")], ["area_of"], 0),
+    ([("from shapes import Square", "c"), ("from shapes import Circle", "E"), ("from geo.pts import Point", "E")],
+     ["area_of", "origin"], 0),
+    # hand-written stubs whose new imports carry aliases
+    ([], ["area_of"], 0, {"alias": True}),
+    ([("import os", "t")], ["origin", "helper"], 0, {"alias": True}),
+    ([("from shapes import Circle", "t")], ["area_of", "thing", "payload"], 0, {"alias": True}),
 ]
 
 FX_MODULES = ("shapes", "geo.pts", "other", "typings", "typing_helpers", "mypy_extensions_compat")
@@ -108,7 +120,7 @@ def _unload_fixture(fx_root):
     if fx_root in sys.path:
         sys.path.remove(fx_root)
     for m in list(sys.modules):
-        if m in FX_MODULES or m == "geo" or re.match(r"t\d+_(src|out)$", m):
+        if m in FX_MODULES or m == "geo" or m.split(".")[0] == "c16app" or re.match(r"t\d+_(src|out)$", m):
             sys.modules.pop(m, None)
 
 
@@ -116,6 +128,7 @@ def build_case(i, source, stub, overwrite, fx_root, meta=None):
     """Run the real code on (stub, source); reify.  Returns a dict (term None when the real code raised)."""
     c = {"i": i, "source": source, "stub": stub, "overwrite": overwrite, "meta": meta or {}, "error": None,
          "term": None, "output": None}
+    c["mod"] = (G.PKG + "." if c["meta"].get("pkg") else "") + f"t{i}"
     try:
         applied = G.apply_only(stub, source, overwrite)
         newly = G.real_newly(stub, source)
@@ -132,9 +145,9 @@ def build_case(i, source, stub, overwrite, fx_root, meta=None):
             common.coq_list(G.reify_item(n) for n in sorted(newly, key=repr)), common.coq_bool(c["changed"]))
     except (G.Unreifiable, SyntaxError) as e:
         c["error"] = f"result not reifiable: {type(e).__name__}: {e}"[:600]
-    with open(os.path.join(fx_root, f"t{i}_src.py"), "w") as f:
+    with open(G.mod_path(fx_root, c["mod"] + "_src"), "w") as f:
         f.write(source)
-    with open(os.path.join(fx_root, f"t{i}_out.py"), "w") as f:
+    with open(G.mod_path(fx_root, c["mod"] + "_out"), "w") as f:
         f.write(out)
     return c
 
@@ -144,7 +157,7 @@ def _build_case_star(job):
 
 
 def execute(ctx, fx_root, idxs, chunk=24):
-    """import t<i>_src / t<i>_out in fresh interpreters and run the workload; returns {name: [status, value]}"""
+    """import <mod>_src / <mod>_out (top-level or inside the package G.PKG) in fresh interpreters and run the workload; returns {name: [status, value]}"""
     script = os.path.join(ctx.work, "c16_runner.py")
     with open(script, "w") as f:
         f.write(RUNNER)
@@ -152,7 +165,7 @@ def execute(ctx, fx_root, idxs, chunk=24):
     res = {}
 
     def one(job):
-        names = [f"t{i}_{w}" for i in job for w in ("src", "out")]
+        names = [f"{mod}_{w}" for mod in job for w in ("src", "out")]
         p = subprocess.run([common.PY, script, fx_root] + names, capture_output=True, text=True, timeout=300,
                            env=common.sub_env(), cwd=ctx.work)
         for line in p.stdout.splitlines():
@@ -184,11 +197,11 @@ def evaluate(ctx, cases, fx_root):
                 bits = bin(num)[3:]          # drop '0b1'
                 clauses[flagged[k]["i"]] = [b == "1" for b in bits]
     beh = {}
-    res = execute(ctx, fx_root, [c["i"] for c in cases if c["output"] is not None])
+    res = execute(ctx, fx_root, [c["mod"] for c in cases if c["output"] is not None])
     for c in cases:
         if c["output"] is None:
             continue
-        s, o = res.get(f"t{c['i']}_src"), res.get(f"t{c['i']}_out")
+        s, o = res.get(c["mod"] + "_src"), res.get(c["mod"] + "_out")
         if s is None or o is None:
             beh[c["i"]] = (False, "no result from the runner")
         elif s[0] != "ok":
@@ -203,7 +216,7 @@ def evaluate(ctx, cases, fx_root):
 CLAUSE_NAMES = ["head_is_future_import", "new_items_under_TYPE_CHECKING", "no_new_runtime_import", "source_imports_in_place",
                 "runtime_names_bound", "generated_class_bases_bound", "model_eq_impl", "libcst_assumptions",
                 "kf_shadow", "kf_apply_extra", "TYPE_CHECKING_bound_before_block",
-                "no_second_copy_under_TYPE_CHECKING"]
+                "no_second_copy_under_TYPE_CHECKING", "no_empty_TYPE_CHECKING_block_added"]
 
 
 def describe(c, code, cl, beh):
@@ -228,20 +241,35 @@ def run(ctx):
             "behaviour_ok": 0, "behaviour_fail": 0, "impl_raised": 0, "source_gen_broken": 0}
     try:
         for i in range(n):
+            opts = {}
             if i < len(DIRECTED):
-                forced, funcs, k = DIRECTED[i]
-                src = G.gen_source(rnd, fx, directed=forced, funcs=funcs, minimal=True)
+                forced, funcs, k, *rest = DIRECTED[i]
+                opts = rest[0] if rest else {}
+                src = G.gen_source(rnd, fx, directed=forced, funcs=funcs, minimal=True, package=bool(opts.get("pkg")))
             else:
                 k = rnd.choice([0, 5, 5])
                 forced = []
+                if rnd.random() < 0.25:      # the target lives inside a package and may use relative imports
+                    opts["pkg"] = True
+                pool_all = G.IMPORT_POOL + G.REL_POOL
                 if rnd.random() < 0.5:   # aim at the seams: an import that resembles what the stub will import
                     seam = G.IMPORT_POOL[:14] + G.IMPORT_POOL[-5:] + \
-                        [e for e in G.IMPORT_POOL if e[0] == "from typing import TYPE_CHECKING"] * 2
+                        [e for e in G.IMPORT_POOL if e[0] == "from typing import TYPE_CHECKING"] * 2 + \
+                        (G.REL_POOL * 2 if opts.get("pkg") else [])
                     forced = [(rnd.choice(seam)[0], None)]
-                    forced = [(st, rnd.choice([p for s2, _, p in G.IMPORT_POOL if s2 == st][0])) for st, _ in forced]
-                src = G.gen_source(rnd, fx, directed=forced)
-            stub = G.make_stub(f"t{i}_src", fx_root, src, rnd, fx, k)
-            jobs.append((i, src["text"], stub, rnd.random() < 0.3, fx_root, {"desc": src["desc"], "k": k, "funcs": src["funcs"]}))
+                    forced = [(st, rnd.choice([p for s2, _, p in pool_all if s2 == st][0])) for st, _ in forced]
+                src = G.gen_source(rnd, fx, directed=forced, package=bool(opts.get("pkg")))
+                if rnd.random() < 0.3 and all(f in G.ALIAS_STUBS for f in src["funcs"]):
+                    opts["alias"] = True
+            modname = (G.PKG + "." if opts.get("pkg") else "") + f"t{i}_src"
+            if opts.get("alias"):        # hand-written stub whose new imports carry aliases
+                stub = G.alias_stub(src["funcs"])
+            else:
+                stub = G.make_stub(modname, fx_root, src, rnd, fx, k)
+            for o in opts:
+                dist["mode_" + o] = dist.get("mode_" + o, 0) + 1
+            jobs.append((i, src["text"], stub, rnd.random() < 0.3, fx_root,
+                         dict({"desc": src["desc"], "k": k, "funcs": src["funcs"]}, **opts)))
             dist["k"][k] += 1
             for d in src["desc"]:
                 p = d.split(":")[0]
@@ -302,16 +330,16 @@ def run(ctx):
     failures.sort(key=lambda f: (1 if f.get("finding") else 0))
     return {
         "evaluations": len(cases), "distinct_nontrivial": len(nontrivial),
-        "rule": "31 directed witnesses (the design-phase defects and their neighbours), then random sources: optional docstring / "
+        "rule": "39 directed witnesses (the design-phase defects and their neighbours), then random sources: optional docstring / "
                 "__future__ import, 0-5 import statements from a 32-entry pool (import a.b, aliases, star, typing, "
                 "mypy_extensions, clashing names) placed at the top, after a statement, in a function, under an existing "
-                "TYPE_CHECKING block (also aliased), in try/except, or in one-line try / def / if suites, 1-3 functions whose stub is rendered by MonkeyType's own "
-                "build_module_stubs_from_traces (k in {0,5}); every case goes through the real apply step, "
+                "TYPE_CHECKING block (also aliased), in try/except, in one-line try / def / if suites, or in the else / elif branch of the TYPE_CHECKING statement; a quarter of the targets are modules of a package and also use relative imports (from .m / .. / .a.b) whose tails coincide with the stub's absolute modules; 1-3 functions whose stub is rendered by MonkeyType's own "
+                "build_module_stubs_from_traces (k in {0,5}) or, for ~10%, hand-written with aliased imports (from a import b as c, import a.b as d); every case goes through the real apply step, "
                 "get_newly_imported_items and apply_stub_using_libcst(..., True); verdict in Coq; then source and result are "
                 "imported in fresh interpreters and run() compared; the results of all directed and a quarter of the random "
                 "cases are then the source of a second application of the same stub (re-application stream). non-trivial = the stub brings a newly imported item and "
                 "the source has an import; distinct by hash of the reified case",
-        "samples": [{"source": c["source"], "stub": c["stub"], "output": c["output"]} for c in cases[31:34]],
+        "samples": [{"source": c["source"], "stub": c["stub"], "output": c["output"]} for c in cases[39:42]],
         "distribution": dist, "failures": failures, "mismatches": mismatches,
         "relation": "module_eqb (confine stub src applied) out  /\\  set_eqb (newly stub src) impl_newly",
     }
